@@ -53,10 +53,16 @@ impl Zone {
 }
 
 pub fn build_zone(def: &ZoneDef) -> Zone {
+    build_zone_ns(def, &crate::n("ns.o."))
+}
+
+/// As `build_zone` with the given apex NS target (the recursor hierarchies use in-zone name
+/// servers with glue).
+pub fn build_zone_ns(def: &ZoneDef, apex_ns: &Name) -> Zone {
     let o = &def.origin;
     let mut z = InMemoryZoneHandler::<SimProvider>::empty(o.clone(), ZoneType::Primary, AxfrPolicy::Deny, def.nx.clone());
     z.upsert_mut(Record::from_rdata(o.clone(), 300, RData::SOA(SOA::new(crate::n("ns.o."), crate::n("h.o."), 1, 3600, 600, 86400, 300))), 1);
-    z.upsert_mut(Record::from_rdata(o.clone(), 300, RData::NS(NS(crate::n("ns.o.")))), 1);
+    z.upsert_mut(Record::from_rdata(o.clone(), 300, RData::NS(NS(apex_ns.clone()))), 1);
     for r in &def.records {
         z.upsert_mut(r.clone(), 1);
     }
@@ -94,6 +100,13 @@ impl Hierarchy {
     /// wall clock). `anchor_keys` = (zone index, key index) pairs that become trust anchors.
     pub fn build(name: &str, defs: &[ZoneDef], anchor_keys: &[(usize, usize)]) -> Hierarchy {
         let zones: Vec<Zone> = defs.iter().map(build_zone).collect();
+        let anchors = anchor_keys.iter().map(|(z, k)| zones[*z].keys[*k].public.clone()).collect();
+        Hierarchy { name: name.to_string(), zones, anchors, cache: Mutex::new(HashMap::new()) }
+    }
+
+    /// As `build`, every zone with its own apex NS target.
+    pub fn build_ns(name: &str, defs: &[(ZoneDef, Name)], anchor_keys: &[(usize, usize)]) -> Hierarchy {
+        let zones: Vec<Zone> = defs.iter().map(|(d, ns)| build_zone_ns(d, ns)).collect();
         let anchors = anchor_keys.iter().map(|(z, k)| zones[*z].keys[*k].public.clone()).collect();
         Hierarchy { name: name.to_string(), zones, anchors, cache: Mutex::new(HashMap::new()) }
     }
